@@ -8,6 +8,11 @@ from gen import htmlgen
 logging.getLogger('web_monitoring_diff.html_render_diff').setLevel(logging.CRITICAL + 1)
 
 HAND_PAIRS = [
+    # <noscript> as the first thing of the body (the tag-manager snippet): its content must stay inside it
+    ('<html><head><title>t</title></head><body><noscript><p>Enable JS</p></noscript><p>hello world</p></body></html>',
+     '<html><head><title>t</title></head><body><noscript><p>Enable JS</p></noscript><p>hello new world</p></body></html>'),
+    ('<!doctype html><html><head><title>t</title></head><body class="home"><noscript><iframe src="//tags.test/ns.html?id=GTM-1" height="0" width="0"></iframe>no script</noscript><h1>Title</h1><p>body text <noscript><img src="p.gif" alt="pixel"> px</noscript></p></body></html>',
+     '<!doctype html><html><head><title>t</title></head><body class="home"><noscript><iframe src="//tags.test/ns.html?id=GTM-1" height="0" width="0"></iframe>no script</noscript><h1>Title now</h1><p>body text <noscript><img src="p.gif" alt="pixel"> px</noscript></p></body></html>'),
     # an embedded element with tail text deleted while the structure around it changes (a deletion branch that is never completed)
     ('<p>Intro words</p><h1>Search results</h1><div class="pager"><select name="n"><option>10</option><option>20</option></select> per page</div><p>Footer words here</p>',
      '<p>Intro words</p><span>Search results</span><p>Footer words here</p>'),
@@ -195,6 +200,9 @@ def c01_failures(a, b, result):
         if rl.readable_text(body) != rl.readable_text(src):
             fails.append('%s view: readable text differs from the %s page: view=%r page=%r' % (
                 key, 'new' if key == 'insertions' else 'old', rl.readable_text(body)[:120], rl.readable_text(src)[:120]))
+        elif rl.readable_text(body, scripting=True) != rl.readable_text(src, scripting=True):
+            fails.append('%s view: text displayed with scripting enabled (outside <noscript>) differs from the page: view=%r page=%r' % (
+                key, rl.readable_text(body, scripting=True)[:120], rl.readable_text(src, scripting=True)[:120]))
         elif rl.separations(body) != rl.separations(src):
             # extra separators (the link sentinel's space) are tolerated, lost ones are not
             if not _only_extra_separators(rl.separations(src), rl.separations(body)):
